@@ -89,6 +89,7 @@ func jobScenario(r *core.Run, prop string) []*core.Violation {
 		cfg.FeeMultiplier[i] = []string{"1.1", "1.0", "1.337", "0.5", "2", "1.000000000000000001", "3.999999999999999999"}[t.Intn(7)]
 	}
 	cfg.NContracts = t.Intn(3)
+	cfg.EstimateHoldPerMille = []int{0, 100, 300}[t.Intn(3)]
 	faulty := t.Draw(2) == 1
 	if faulty {
 		r.Profile = "faulty"
